@@ -177,8 +177,10 @@ pub proof fn lemma_match_copy_len(v: Seq<u8>, offset: int, n: int)
         final(scratch).buffer.inv(),
         final(scratch).sequences == old(scratch).sequences, final(scratch).literals_buffer == old(scratch).literals_buffer,
         final(scratch).buffer.dict() == old(scratch).buffer.dict(),
-        // C05: a block regenerates at most 128 KiB
-        r is Ok ==> final(scratch).buffer.view().len() - old(scratch).buffer.view().len() <= MAX_BLOCK_SIZE,
+        // C05: a block regenerates at most 128 KiB - on EVERY path: an over-long block is rejected before it is expanded, so
+        // even a failing call never leaves more than one block's worth of extra data in the window
+        final(scratch).buffer.view().len() - old(scratch).buffer.view().len() <= MAX_BLOCK_SIZE,
+        final(scratch).buffer.view().len() >= old(scratch).buffer.view().len(),
         // C01: the output is the interleaving of literal runs and matches, then the remaining literals
         r is Ok ==> ({
             let n = old(scratch).sequences@.len() as int;
